@@ -117,6 +117,7 @@ func C09(c *core.Ctx) {
 	// R9.1/R9.2 accept a gate on pkt.Name, pkt.L3.Interest.NameV or pkt.L3.Data.NameV
 	// alike; that is sound only while Pkt.Name is the name of the packet in Pkt.L3.
 	c09NameCoherence(c)
+	c09RawIsOneElement(c)
 
 	// ---- R9.3a: sendFrame is only called inside fw/face.
 	nFrame := 0
@@ -464,4 +465,79 @@ func c09NameCoherence(c *core.Ctx) {
 		c.Decide(ok, "R9.4", "name-store:"+core.FuncName(fn), c.Pos(st), "Pkt.Name stored from the NameV of the same Pkt's layer-3 packet", "Pkt.Name is stored from something other than the name of the Pkt's own layer-3 packet")
 	}
 	c.Floor("R9.4", "stores to Pkt.Name", len(names), 2)
+}
+
+// c09RawIsOneElement (R9.5): the bytes that travel are the bytes that were checked. The
+// gates test the name of the ONE packet the decoder returned, while every send transmits
+// Pkt.Raw as it is; spec.ReadPacket reads every top-level element of its buffer into one
+// Packet (the last of each kind wins). So a buffer may become Pkt.Raw only behind a test
+// that it consists of exactly one TLV element: a predicate over that buffer (or over the
+// buffer it was copied from) which reads a type and a length number and compares the
+// length with what remains.
+func c09RawIsOneElement(c *core.Ctx) {
+	p := c.P
+	n := 0
+	for _, fn := range p.FuncsIn(core.ModPath + "/fw/face") {
+		if strings.HasSuffix(p.File(fn.Pos()), "_test.go") {
+			continue
+		}
+		core.Instrs(fn, func(in ssa.Instruction) {
+			_, v, ok := storeToField(in, "Pkt", "Raw")
+			if !ok || core.IsNilConst(v) {
+				return
+			}
+			n++
+			c.Funcs[core.FuncName(fn)] = true
+			buf := core.Strip(v)
+			// the buffer, or the one it was copied from
+			same := func(x ssa.Value) bool {
+				x = core.Strip(x)
+				if x == buf || core.Same(x, buf) {
+					return true
+				}
+				okCopy := false
+				core.Instrs(fn, func(y ssa.Instruction) {
+					if cl, isC := isBuiltinCall(y, "copy"); isC && len(cl.Call.Args) == 2 {
+						if core.Strip(cl.Call.Args[0]) == buf && (core.Strip(cl.Call.Args[1]) == x || core.Same(cl.Call.Args[1], x)) {
+							okCopy = true
+						}
+					}
+				})
+				return okCopy
+			}
+			single := &core.Atom{Name: "buffer is exactly one TLV element", Match: func(cond ssa.Value) (int, int) {
+				cl, ok := core.Strip(cond).(*ssa.Call)
+				if !ok {
+					return 0, 0
+				}
+				h := cl.Call.StaticCallee()
+				if h == nil || h.Blocks == nil || len(cl.Call.Args) != 1 || !same(cl.Call.Args[0]) {
+					return 0, 0
+				}
+				nRead, cmp := 0, false
+				core.Instrs(h, func(y ssa.Instruction) {
+					if ci, isCI := y.(ssa.CallInstruction); isCI {
+						if id, okID := core.Callee(ci.Common()); okID && id.Name == "ReadTLNum" {
+							nRead++
+						}
+					}
+					if b, isB := y.(*ssa.BinOp); isB && (b.Op == token.EQL || b.Op == token.NEQ) {
+						// length read == something derived from a Length()/Pos()/len
+						for _, side := range [][2]ssa.Value{{b.X, b.Y}, {b.Y, b.X}} {
+							if e, isE := core.StripConv(side[0]).(*ssa.Extract); isE && isCallTo(e.Tuple, core.CalleeID{Pkg: "std/encoding", Name: "ReadTLNum"}) {
+								cmp = true
+							}
+						}
+					}
+				})
+				if nRead >= 2 && cmp {
+					return 1, -1
+				}
+				return 0, 0
+			}}
+			g := core.GateDeep(fn, []ssa.Instruction{in}, pos(single))
+			c.Decide(g.OK && g.PassEdges > 0, "R9.5", fmt.Sprintf("raw-is-exactly-one-element:%s#%d", core.FuncName(fn), n), c.Pos(in), "the buffer becomes Pkt.Raw only behind a test that it is exactly one TLV element", core.FuncName(fn)+" keeps a received buffer as Pkt.Raw without having established that it holds exactly one TLV element: the decoder reads all elements of the buffer into one packet, the scope gates look at one name, and every send transmits the whole buffer — Data(/localhost/x) || Data(/pub/y) from a local producer leaves on a non-local face, and Data(/localhost/…) || Interest(/app) from a non-local face reaches local applications")
+		})
+	}
+	c.Floor("R9.5", "stores of a received buffer into Pkt.Raw", n, 2)
 }
